@@ -64,7 +64,7 @@ func runC43(c *hl.Ctx) error {
 		c.Emit(c43Observe(b))
 		c.Count("corpus")
 	}
-	n := c.Pick(4000, 200000)
+	n := c.Pick(4000, 60000)
 	for i := 0; i < n; i++ {
 		c.Emit(c43Observe(c43Gen(c, r)))
 	}
